@@ -615,6 +615,26 @@ SameTargetV(S, pre, r, post) ==
             ELSE V("SameTarget", "assigns-another-target")
          : i \in DOMAIN pre}
 
+\* struct_fields_as_options / struct_fields_as_arguments: "the same target" at the level of leaves (DESIGN 3.5):
+\* every unfolded field of the struct is assigned at <the option's path>.<field>
+FieldTargetsV(S, pre, r, post) ==
+  UNION {LET b == pre[i]
+             sel == SelOpts(r, b)
+             un == Unsel(r, b)
+             wants == UNION {LET o == sel[x]
+                                 st == FirstArgStruct(S, o)
+                             IN IF st.k # "struct" THEN {}
+                                ELSE IF Last(o.assigns[1].path).type.k = "array" THEN {}      \* unfolded into an envelope appended to the list
+                                ELSE {PathIds(o.assigns[1].path) \o <<f.name>> : f \in Range(PickFields(st, r.fields))}
+                             : x \in DOMAIN sel}
+         IN IF sel = <<>> \/ wants = {} \/ Counterparts(b, post) = {} THEN {}
+            ELSE IF \E j \in Counterparts(b, post) :
+                      LET produced == {o \in Range(post[j].options) : Count(post[j].options, o) > Count(un, o)}
+                      IN wants \subseteq UNION {TargetsOf(o) : o \in produced}
+                 THEN {}
+            ELSE V("SameTarget", "field-of-the-struct-not-assigned")
+         : i \in DOMAIN pre}
+
 \* Parameterisations whose outcome nothing documents are outside every claim (DESIGN 6.0):
 \* an explicit field list that names no field of the struct it is applied to.
 Defined(S, pre, r) ==
@@ -637,4 +657,77 @@ StepViolated(S, pre, r, post) ==
   \cup (IF r.r = "rename" \/ (r.kind = "o" /\ r.r = "rename_arguments") THEN RenameV(S, pre, r, post) ELSE {})
   \cup (IF r.r = "duplicate" THEN DuplicateV(S, pre, r, post) ELSE {})
   \cup (IF r.kind = "o" /\ r.r \in SameTargetRules THEN SameTargetV(S, pre, r, post) ELSE {})
+  \cup (IF r.kind = "o" /\ r.r \in {"struct_fields_as_options", "struct_fields_as_arguments"} THEN FieldTargetsV(S, pre, r, post) ELSE {})
+(* ============ growth item 2: nil checks (GenerateBuilderNilChecks) ======== *)
+\* Requirement (DESIGN Appendix E.2; the IR half of C09): in every scope (the
+\* constructor, or one option) and for every assignment, every NULLABLE PROPER
+\* PREFIX of the assignment path is protected by exactly one nil check placed at or
+\* before that assignment, none is repeated within the scope, nothing else is
+\* checked, the check's empty value has the prefix's type (the hinted type when the
+\* item carries a hint), and - for append assignments in languages that protect
+\* appends - the appended-to array itself counts as a prefix.
+\* cfg = the language's NullableConfig: [kinds : set of kind names, protect, any : BOOLEAN]
+TypeNullable(cfg, t) == IsType(t) /\ (t.nullable \/ (t.k = "scalar" /\ t.sk = "any" /\ cfg.any) \/ t.k \in cfg.kinds)
+PrefixKey(p) == [i \in DOMAIN p |-> [id |-> p[i].id, index |-> p[i].index]]
+Prefix(p, i) == SubSeq(p, 1, i)
+NeededLens(cfg, a) == {i \in 1..Len(a.path) : TypeNullable(cfg, a.path[i].type) /\ (i < Len(a.path) \/ (cfg.protect /\ a.method = "append"))}
+NeededKeys(cfg, a) == {PrefixKey(Prefix(a.path, i)) : i \in NeededLens(cfg, a)}
+EmptyOf(it) == IF it.hint.k # "none" THEN it.hint ELSE it.type
+NilCheck(a, i) == [path |-> Prefix(a.path, i), empty |-> EmptyOf(a.path[i])]
+
+\* why a prefix needs protection / what a check sits on (witness classes)
+PrefixClass(cfg, a, i) ==
+  LET t == a.path[i].type IN
+  (IF i = Len(a.path) THEN "append-target"
+   ELSE IF ~IsType(t) THEN "untyped"
+   ELSE IF t.nullable THEN "nullable-" \o t.k
+   ELSE IF t.k = "scalar" /\ t.sk = "any" THEN "any"
+   ELSE IF t.k \in cfg.kinds THEN "kind-" \o t.k
+   ELSE "non-nullable-" \o t.k)
+  \o (IF a.path[i].id = "" THEN "+index" ELSE "") \o (IF a.path[i].hint.k # "none" THEN "+hint" ELSE "")
+  \o (IF i > 2 THEN "@deep" ELSE "")
+
+RECURSIVE SortedSeqOf(_)
+SortedSeqOf(ns) == IF ns = {} THEN <<>> ELSE LET m == CHOOSE x \in ns : \A y \in ns : x <= y IN <<m>> \o SortedSeqOf(ns \ {m})
+
+\* the requirement as a function on one scope (a sequence of assignments without nil checks)
+ChecksFor(cfg, scope, j) ==
+  LET a == scope[j]
+      earlier == UNION {NeededKeys(cfg, scope[x]) : x \in 1..(j - 1)}
+      lens == SortedSeqOf({i \in NeededLens(cfg, a) : PrefixKey(Prefix(a.path, i)) \notin earlier})
+  IN [x \in DOMAIN lens |-> NilCheck(a, lens[x])]
+ScopeWithNilChecks(cfg, scope) == [j \in DOMAIN scope |-> [scope[j] EXCEPT !.nilchecks = ChecksFor(cfg, scope, j)]]
+BuilderWithNilChecks(cfg, b) ==
+  [b EXCEPT !.ctor.assigns = ScopeWithNilChecks(cfg, @),
+            !.options = [i \in DOMAIN @ |-> [@[i] EXCEPT !.assigns = ScopeWithNilChecks(cfg, @)]]]
+
+\* the requirement as a relation: violations of one scope of the builder after generation
+ScopeNilV(cfg, scope, where) ==
+  LET checks == UNION {{<<j, c>> : c \in DOMAIN scope[j].nilchecks} : j \in DOMAIN scope}
+      chk(x) == scope[x[1]].nilchecks[x[2]]
+      lenOf(x) == Len(chk(x).path)
+      isPrefix(x) == lenOf(x) >= 1 /\ lenOf(x) <= Len(scope[x[1]].path)
+                     /\ PrefixKey(chk(x).path) = PrefixKey(Prefix(scope[x[1]].path, lenOf(x)))
+      V2(cl, w) == {[clause |-> cl, class |-> w, where |-> where]}
+  IN UNION {UNION {IF \E x \in checks : x[1] <= j /\ PrefixKey(chk(x).path) = PrefixKey(Prefix(scope[j].path, i))
+                   THEN {} ELSE V2("missing", PrefixClass(cfg, scope[j], i))
+                   : i \in NeededLens(cfg, scope[j])} : j \in DOMAIN scope}
+     \cup UNION {IF ~isPrefix(x) THEN V2("spurious", "not-a-prefix-of-its-assignment")
+                 ELSE IF lenOf(x) \notin NeededLens(cfg, scope[x[1]])
+                      THEN V2("spurious", IF lenOf(x) = Len(scope[x[1]].path) /\ scope[x[1]].method # "append"
+                                          THEN "full-path-of-" \o scope[x[1]].method \o "-assignment"
+                                          ELSE PrefixClass(cfg, scope[x[1]], lenOf(x)))
+                 ELSE IF chk(x) # NilCheck(scope[x[1]], lenOf(x)) THEN V2("wrong-empty-value", PrefixClass(cfg, scope[x[1]], lenOf(x)))
+                 ELSE {} : x \in checks}
+     \cup UNION {IF \E y \in checks : y # x /\ PrefixKey(chk(y).path) = PrefixKey(chk(x).path) /\ isPrefix(x)
+                 THEN V2("duplicate", PrefixClass(cfg, scope[x[1]], lenOf(x))) ELSE {} : x \in checks}
+BuilderNilV(cfg, b) ==
+  ScopeNilV(cfg, b.ctor.assigns, "constructor")
+  \cup UNION {ScopeNilV(cfg, b.options[i].assigns, "option") : i \in DOMAIN b.options}
+\* nothing but nil checks may change
+StripNil(b) == [b EXCEPT !.ctor.assigns = [j \in DOMAIN @ |-> [@[j] EXCEPT !.nilchecks = <<>>]],
+                         !.options = [i \in DOMAIN @ |-> [@[i] EXCEPT !.assigns = [j \in DOMAIN @ |-> [@[j] EXCEPT !.nilchecks = <<>>]]]]]
+NilChecksViolated(cfg, pre, post) ==
+  {[clause |-> v.clause, class |-> v.class \o "/" \o v.where] : v \in BuilderNilV(cfg, post)}
+  \cup (IF StripNil(post) = StripNil(pre) THEN {} ELSE {[clause |-> "frame", class |-> "builder-changed-elsewhere"]})
 ===============================================================================
